@@ -178,6 +178,11 @@ def gen_scenario(seed, force_cfg=None, profile=None, drive=None):
         else:
             drive = {"mode": "steps", "n": r.choice([0, 1, 3, 10, 50, 400])}
     scn = {"cfg": cfg, "table": [], "drive": drive, "seed": seed, "profile": prof}
+    # observation / usage options that must not matter: profiling on, command objects re-used
+    if r.random() < 0.25:
+        scn["simOptions"] = {"profile": True}
+    if r.random() < 0.3:
+        scn["reuseCommands"] = True
     return scn, Behaviour(stable_hash("beh", seed), cfg, prof)
 
 
